@@ -352,11 +352,16 @@ CONTRACTS = [ENCODE_TAG, ENCODE_LENGTH, ENCODE, BOOLEAN_ENC, CER_BOOLEAN_ENC, NU
 
 
 # ---- OCTET STRING (and every string type) content: primitive, or segments of at most maxChunkSize octets --------------
+def _some_tag(ex, self, k):
+    """tagSet[k]: one of the value's own tags -- not the base tag (an implicitly tagged string has the two differ)"""
+    return Obj('Tag', {'__truthy__': True}, name='tagSet[..]')
+
+
 def _string_value(ex, env):
     import z3 as _z
     content = env['content']
     base = Obj('Tag', {'__truthy__': _z.Bool('hasBaseTag')}, name='baseTag')
-    return Obj('OctetString', {'tagSet': Obj('TagSet', {'baseTag': base}, name='tagSet')},
+    return Obj('OctetString', {'tagSet': Obj('TagSet', {'baseTag': base}, {'__getitem__': _some_tag}, name='tagSet')},
                {'asOctets': lambda ex2, self: content,
                 'clone': lambda ex2, self, **kw: Obj('OctetString', {'tagSet': kw.get('tagSet')}, name='fragmentSpec')},
                name='value')
@@ -371,7 +376,7 @@ def _encode_chunk(ex, chunk, asn1Spec=None, **options):
 
 OCTETS_ENC = Contract(
     id='ber.encoder::OctetStringEncoder.encodeValue[value-object]', file=F, qual='OctetStringEncoder.encodeValue',
-    properties=['C01', 'C03', 'C02'],
+    properties=['C01', 'C03', 'C02', 'C13'],
     params=dict(self=PObj('OctetStringEncoder'), content=PBytes(), value=PDerived(_string_value), asn1Spec=PConst(None),
                 encodeFun=PConst(FnV(_encode_chunk, 'encodeFun')), options=POptions(maxChunkSize=PInt(), defMode=PBool())),
     globals={'tag': {'TagSet': FnV(_tagset_ctor, 'tag.TagSet')}, 'hasBaseTag': __import__('z3').Bool('hasBaseTag')},
@@ -472,7 +477,7 @@ def _bits_obj(z, name, tagSet=None):
 def _bit_value(ex, env):
     import z3 as _z
     base = Obj('Tag', {'__truthy__': _z.Bool('hasBaseTag')}, name='baseTag')
-    return _bits_obj(env['bits'].z, 'value', Obj('TagSet', {'baseTag': base}, name='tagSet'))
+    return _bits_obj(env['bits'].z, 'value', Obj('TagSet', {'baseTag': base}, {'__getitem__': _some_tag}, name='tagSet'))
 
 
 def _encode_bit_chunk(ex, chunk, asn1Spec=None, **options):
@@ -485,7 +490,7 @@ def _encode_bit_chunk(ex, chunk, asn1Spec=None, **options):
 _MCS = 'options.get("maxChunkSize", 0)'
 BITS_ENC = Contract(
     id='ber.encoder::BitStringEncoder.encodeValue[value-object]', file=F, qual='BitStringEncoder.encodeValue',
-    properties=['C01', 'C03', 'C02'],
+    properties=['C01', 'C03', 'C02', 'C13'],
     params=dict(self=PObj('BitStringEncoder'), bits=PIntTuple(), value=PDerived(_bit_value), asn1Spec=PConst(None),
                 encodeFun=PConst(FnV(_encode_bit_chunk, 'encodeFun')), options=POptions(maxChunkSize=PInt(), defMode=PBool())),
     globals={'tag': {'TagSet': FnV(_tagset_ctor, 'tag.TagSet')}, 'hasBaseTag': __import__('z3').Bool('hasBaseTag')},
